@@ -292,5 +292,44 @@ MC_INIT
         }
         mc::more_cases(3, 3);
     });
+
+    // ---------------------------------------------------------------- const paths in read-only memory
+    mc::add_check("readonly_paths", [] {
+        int L = mc::thorough() ? 4 : 3;
+        Str a = enum_str(PSIG, NP, L, 3);
+        long nb = count_upto(NP, L);
+        mc::describe("read-only path=%s: path_next/path_iterate, and compare_node/remove_prefix x all %ld read-only prefixes <=%d", esc(a).c_str(), nb, L);
+        mc::nontrivial();
+        RoMode ro;
+        {
+            CS b(a);
+            b.freeze();
+            unsigned int len = 0;
+            Run want;
+            bool have = ref_next(a, &want);
+            mc::crash_context("C19.path_next.memory.readonly_input");
+            const char *g = w_path_next(b.p, &len);
+            mc::crash_context("C19.path_iterate.memory.readonly_input");
+            const char *h = w_path_iterate(b.p);
+            mc::crash_context("C19.harness");
+            if ((g ? (long)(g - b.p) : -1) != (have ? (long)want.off : -1) || (h ? (long)(h - b.p) : -1) != ref_iterate(a))
+                mc::violation("C19.path_next_iterate.value.readonly_input", "path_next/path_iterate(%s) differ from the reference", esc(a).c_str());
+        }
+        for (long k = 0; k < nb; k++)
+        {
+            Str b = nth_str(PSIG, NP, k);
+            CS ab(a, 0), bb(b, 1);
+            ab.freeze(), bb.freeze();
+            mc::crash_context("C19.path_compare_node.memory.readonly_input");
+            int c = w_path_compare_node(ab.p, bb.p);
+            mc::crash_context("C19.path_remove_prefix.memory.readonly_input");
+            const char *g = w_path_remove_prefix(ab.p, bb.p);
+            mc::crash_context("C19.harness");
+            if (c != ref_compare_node(a, 0, b, 0) || (g ? (long)(g - ab.p) : -1) != (long)ref_remove_prefix(a, b))
+                mc::violation("C19.path_pairs.value.readonly_input", "compare_node/remove_prefix(%s, %s) differ from the reference", esc(a).c_str(),
+                              esc(b).c_str());
+        }
+        mc::more_cases((uint64_t)nb, (uint64_t)nb);
+    });
 }
 MC_MAIN
